@@ -114,11 +114,11 @@ FALLBACK_OPTIMIZERS = ["ParticleSwarmOptimizer", "SpiralOptimization", "Evolutio
 
 
 def backend_runs(r, quick):
-    specs = bkgen.all_optimizer_scenarios(r, 5 if quick else 40, constraint_p=0.5, nonfinite_p=0.25)
+    specs = bkgen.all_optimizer_scenarios(r, C.T(5, 40), constraint_p=0.5, nonfinite_p=0.25)
     # the "check, else ONE fallback kernel" optimizers under non-convex constraints on roomy spaces: the fallback is taken often
     r2 = C.rng("C19-fallback")
     for name in FALLBACK_OPTIMIZERS:
-        for _ in range(3 if quick else 20):
+        for _ in range(C.T(3, 20)):
             sp = bkgen.scenario(r2, name, constraint_p=0.0, sizes=[7, 10, 15, 21])
             if len(sp["space"]) < 2:
                 continue
@@ -160,9 +160,9 @@ def run():
                          "monitored only (no tracker model): %s" % unmodelled)
     chk.assumptions.append("the link 'log entry = really evaluated pair' (pos_new of the receiving tracker is the position returned to the driver) is established per run by the monitor")
     from . import localgen
-    localgen.add_to(chk, C.rng("C19-local"), 8 if C.tier() != "thorough" else 80, constraint_p=0.5)
-    localgen.add_pt_to(chk, C.rng("C19-pt"), 20 if C.tier() != "thorough" else 200, constraint_p=0.5)
-    localgen.add_pattern_to(chk, C.rng("C19-pattern"), 20 if C.tier() != "thorough" else 200, constraint_p=0.5, nonfinite_p=0.2)
-    localgen.add_powell_to(chk, C.rng("C19-powell"), 20 if C.tier() != "thorough" else 200, constraint_p=0.6, nonfinite_p=0.2)
+    localgen.add_to(chk, C.rng("C19-local"), C.T(8, 80), constraint_p=0.5)
+    localgen.add_pt_to(chk, C.rng("C19-pt"), C.T(20, 200), constraint_p=0.5)
+    localgen.add_pattern_to(chk, C.rng("C19-pattern"), C.T(20, 200), constraint_p=0.5, nonfinite_p=0.2)
+    localgen.add_powell_to(chk, C.rng("C19-powell"), C.T(20, 200), constraint_p=0.6, nonfinite_p=0.2)
     scen.shutdown_manager()
     return chk.finish()
